@@ -6,6 +6,7 @@ import (
 	"errors"
 	"io"
 	"os"
+	"runtime"
 	"sort"
 	"strings"
 	"sync"
@@ -301,3 +302,40 @@ func (r *recFs) leaked() []string {
 	sort.Strings(out)
 	return out
 }
+
+// yieldFs: every file-system call first yields the processor. With few scheduler threads this interleaves
+// the connections at exactly the points where one of them is between two file-system calls - the window in
+// which state shared by mistake (a pooled scratch buffer still referenced, a package-level variable) is
+// overwritten by somebody else.
+type yieldFs struct{ afero.Fs }
+
+type yieldFile struct{ afero.File }
+
+func (s yieldFs) Open(name string) (afero.File, error) {
+	runtime.Gosched()
+	f, err := s.Fs.Open(name)
+	if err != nil {
+		return nil, err
+	}
+	return yieldFile{f}, nil
+}
+func (s yieldFs) OpenFile(name string, flag int, perm os.FileMode) (afero.File, error) {
+	runtime.Gosched()
+	f, err := s.Fs.OpenFile(name, flag, perm)
+	if err != nil {
+		return nil, err
+	}
+	return yieldFile{f}, nil
+}
+func (s yieldFs) Stat(name string) (os.FileInfo, error) { runtime.Gosched(); return s.Fs.Stat(name) }
+func (f yieldFile) Read(p []byte) (int, error)          { runtime.Gosched(); return f.File.Read(p) }
+func (f yieldFile) ReadAt(p []byte, off int64) (int, error) {
+	runtime.Gosched()
+	return f.File.ReadAt(p, off)
+}
+func (f yieldFile) Seek(off int64, whence int) (int64, error) {
+	runtime.Gosched()
+	return f.File.Seek(off, whence)
+}
+func (f yieldFile) Stat() (os.FileInfo, error) { runtime.Gosched(); return f.File.Stat() }
+func (f yieldFile) Close() error               { runtime.Gosched(); return f.File.Close() }
